@@ -136,6 +136,7 @@ def winding_table(ctx, body, R, key, scrut_pred, count_pred):
 def origin_def(an, rv, bb, idx):
     """follow `x = copy y` chains from an rvalue back to the definition that computed the value"""
     seen = 0
+    last_def = None
     while rv['k'] == 'use' and rv['o']['k'] in ('copy', 'move') and seen < 20:
         pr = rv['o']['p']['pr']
         if [e.get('k') for e in pr] == ['deref']:
@@ -161,9 +162,9 @@ def origin_def(an, rv, bb, idx):
                 seen += 1
                 rv, bb, idx = {'k': 'use', 'o': {'k': 'copy', 'p': {'l': target[0], 'pr': []}}}, target[1], target[2]
                 continue
-            return None
+            return last_def
         if pr:
-            return None
+            return last_def
         seen += 1
         ds = an.reaching(rv['o']['p']['l'], bb, idx)
         if len(ds) != 1 or ds[0].kind != 'assign' or ds[0].partial:
@@ -172,6 +173,7 @@ def origin_def(an, rv, bb, idx):
         nrv = d.node['rv']
         if nrv['k'] == 'use' and nrv['o']['k'] in ('copy', 'move') and (not nrv['o']['p']['pr'] or [e.get('k') for e in nrv['o']['p']['pr']] == ['deref']):
             rv, bb, idx = nrv, d.bb, d.idx
+            last_def = d
             continue
         return d
     return None
